@@ -23,7 +23,7 @@ import (
 // pairs in the thorough tier), raw non-JSON bodies, HTTP statuses; composite sync / finalize / customize.
 
 type c13Cfg struct {
-	Mode   int // 0 non-rolling; 1 rolling, one revision; 2 rolling, parent spec edited (two revisions, parallel hook calls); 3 finalizing; 4 rolling, two revisions, the rollout is waiting for a child of the latest revision
+	Mode   int // 0 non-rolling; 1 rolling, one revision; 2 rolling, parent spec edited (two revisions, parallel hook calls); 3 finalizing; 4 rolling, two revisions, the rollout is waiting for a child of the latest revision; 5 the same with that child present (rollout under way)
 	GenSel bool
 	Strict bool
 	Target string // which hook is mutated: "sync" (or finalize in mode 3), "customize"
@@ -87,7 +87,7 @@ func c13Run(c c13Case) []mc.Finding {
 		f = append(f, mc.Finding{Key: "C13:" + key, Msg: fmt.Sprintf("%+v %s status=%d body=%s: ", c.Cfg, c.What, c.Status, c.Body) + fmt.Sprintf(format, a...)})
 	}
 	method := v1alpha1.ChildUpdateInPlace
-	if c.Cfg.Mode == 1 || c.Cfg.Mode == 2 || c.Cfg.Mode == 4 {
+	if c.Cfg.Mode == 1 || c.Cfg.Mode == 2 || c.Cfg.Mode >= 4 {
 		method = v1alpha1.ChildUpdateRollingInPlace
 	}
 	w := newCWorld(ccOpt{parent: kit.Thing, children: []*sim.Kind{kit.Leaf}, generateSel: c.Cfg.GenSel, strict: c.Cfg.Strict,
@@ -120,7 +120,7 @@ func c13Run(c c13Case) []mc.Finding {
 			// parent's template, so that a template edit is a real change for every child.
 			var v kit.M
 			_ = json.Unmarshal(validOld, &v)
-			if c.Cfg.Mode == 4 {
+			if c.Cfg.Mode >= 4 {
 				v["children"] = append(kit.L{c13First(c.Cfg.GenSel)}, kit.List(v, "children")...)
 			}
 			for _, ch := range kit.List(v, "children") {
@@ -129,7 +129,7 @@ func c13Run(c c13Case) []mc.Finding {
 			b, _ := json.Marshal(v)
 			return 200, nil, b, nil
 		}
-		if c.Cfg.Mode == 4 && c.Cfg.Target == "sync" {
+		if c.Cfg.Mode >= 4 && c.Cfg.Target == "sync" {
 			// the answer under test, with the waiting rollout's first child put in front of its children (when it
 			// has a children list at all)
 			var v map[string]interface{}
@@ -176,8 +176,8 @@ func c13Run(c c13Case) []mc.Finding {
 	switch c.Cfg.Mode {
 	case 2:
 		w.Sim.Edit(kit.Thing, "n1", "p", func(o map[string]interface{}) { kit.Field(o, "2", "spec", "template", "v") })
-	case 4:
-		// a rollout that WAITS: the first child was moved to the latest revision by a sync with a valid answer,
+	case 4, 5:
+		// a rollout that WAITS (mode 5: that is under way - the moved child exists and is looked at): the first child was moved to the latest revision by a sync with a valid answer,
 		// and has gone missing since
 		w.Sim.Edit(kit.Thing, "n1", "p", func(o map[string]interface{}) { kit.Field(o, "2", "spec", "template", "v") })
 		w.DeliverAll()
@@ -187,7 +187,9 @@ func c13Run(c c13Case) []mc.Finding {
 		}
 		w.DeliverAll()
 		// (the hook lists "first" first, so that is the child that was moved)
-		w.Sim.Remove(kit.Leaf, "n1", "first")
+		if c.Cfg.Mode == 4 {
+			w.Sim.Remove(kit.Leaf, "n1", "first")
+		}
 	case 3:
 		w.Sim.Edit(kit.Thing, "n1", "p", func(o map[string]interface{}) { kit.Deleting(o) })
 	}
@@ -369,7 +371,7 @@ func TestVerifC13(t *testing.T) {
 			r.Sample(kit.M{"cfg": fmt.Sprintf("%+v", c.Cfg), "what": c.What, "status": c.Status, "body": c.Body})
 		}
 	}
-	for mode := 0; mode < 5; mode++ {
+	for mode := 0; mode < 6; mode++ {
 		for gs := 0; gs < 2; gs++ {
 			for st := 0; st < 2; st++ {
 				cfg := c13Cfg{Mode: mode, GenSel: gs == 1, Strict: st == 1, Target: "sync"}
@@ -384,6 +386,20 @@ func TestVerifC13(t *testing.T) {
 				}
 				for i, raw := range c13RawBodies {
 					run(c13Case{cfg, fmt.Sprintf("raw#%d", i), 200, raw})
+				}
+				if (mode == 2 || mode >= 4) && st == 0 {
+					// a well-formed answer that lists children of ONE kind under TWO versions of its API group (the
+					// second version is not declared: whatever comes of it, it is not a panic). Lookups by group and
+					// kind then meet two version buckets in map order: repeated, so that both orders occur.
+					two := c13Valid(cfg.GenSel)
+					other := kit.Copy(two["children"].(kit.L)[0].(kit.M))
+					kit.Field(other, "v1beta1", "apiVersion")
+					kit.Field(other, "a-in-the-other-version", "metadata", "name")
+					two["children"] = append(two["children"].(kit.L), other)
+					tb, _ := json.Marshal(two)
+					for rep := 0; rep < 12; rep++ {
+						run(c13Case{cfg, fmt.Sprintf("children-in-two-versions#%d", rep), 200, string(tb)})
+					}
 				}
 			}
 		}
